@@ -76,6 +76,8 @@ def gen_case(rng, tier):
     ntasks = rng.choice([2, 3, 3, 4, 5, 6, 8] + ([12, 18, 25] if big else []))
     case = H.gen_dag(rng, ntasks, p_hard=rng.choice([0.15, 0.3, 0.5]),
                      p_soft=rng.choice([0.0, 0.15, 0.3]))
+    if rng.random() < 0.2:
+        case = H.nest(rng, case)
     case['outcomes'] = H.gen_outcomes(rng, case, KINDS)
     case['workers'] = rng.choice(WORKERS)
     return case
